@@ -96,6 +96,47 @@ Theorem C16_timestamps_listing_exact c crit t0 off ops sel :
             /\ sort_names l = expected_listing sel c (snap_of x).
 Proof. exact (timestamps_listing_exact c crit t0 off ops sel). Qed.
 
+Require Import FL.Flw.NumDTheorems FL.Flw.TsdInv FL.Flw.TsdRun FL.Flw.TsdTheorems FL.Flw.WorldPar FL.Flw.LinkSim.
+(* a configured symlink leads to the file being written, after every operation of every history without failures (before the first write it
+   is absent); with a failing open at a rotation it dangles until the next successful open - counterexample ex_link_fault in Flw/LinkSim.v *)
+Theorem C16_symlink_points_to_current c t0 off ops :
+  c_symlink c = true -> c_async c = false -> Forall basic_op ops ->
+  clean_run (fst (step (sys0 t0 off) (OStart (nolink c)))) ops ->
+  let x := fst (run (sys0 t0 off) (OStart c :: ops)) in
+  exists s, s_flw x = Some s /\
+    match f_inner s with
+    | Active _ _ path => wlink (s_w x) = Some path
+    | Initial => wlink (s_w x) = None
+    end.
+Proof. exact (symlink_points_to_current c t0 off ops). Qed.
+
+(* Numbers naming: the link is rCURRENT *)
+Theorem C16_numbers_symlink_current c crit t0 off ops :
+  numcfg (nolink c) crit -> c_symlink c = true -> Forall basic_op ops ->
+  wlink (s_w (fst (run (sys0 t0 off) (OStart c :: ops)))) = if has_write ops then Some (cname c) else None.
+Proof. exact (numbers_symlink_current c crit t0 off ops). Qed.
+
+(* NumbersDirect naming: the link is the file with the highest number *)
+Theorem C16_numbersdirect_symlink_current c crit t0 off ops :
+  numdcfg (nolink c) crit -> c_symlink c = true -> Forall basic_op ops ->
+  wlink (s_w (fst (run (sys0 t0 off) (OStart c :: ops))))
+  = match a_run None ops (snd (run (fst (step (sys0 t0 off) (OStart (nolink c)))) ops)) with
+    | Some (closed, _) => Some (rname c (length closed))
+    | None => None
+    end.
+Proof. exact (numbersdirect_symlink_current c crit t0 off ops). Qed.
+
+(* TimestampsDirect naming: the link is the file with the newest key *)
+Theorem C16_timestampsdirect_symlink_current c crit t0 off ops :
+  tsdcfg (nolink c) crit -> tag_ok c -> c_symlink c = true -> Forall basic_op ops -> Forall tick_ok ops ->
+  (0 <= t0 + ts_e c off)%Z -> (t0 + elapsed ops + ts_e c off < sec_max)%Z -> (N.of_nat (length ops) <= usize_max)%N ->
+  let x := fst (run (sys0 t0 off) (OStart c :: ops)) in
+  if has_write ops
+  then exists keys, keys <> [] /\ keys_ok keys /\ dir_is c (ts_e c off) (wfs (s_w x)) keys
+         /\ wlink (s_w x) = Some (kname c (ts_e c off) (nth (length keys - 1) keys kd))
+  else wlink (s_w x) = None.
+Proof. exact (timestampsdirect_symlink_current c crit t0 off ops). Qed.
+
 Check C16_stem_ext_roundtrip. Check C16_doc_fixed_is_fixed.
 Print Assumptions C16_stem_ext_roundtrip.
 Print Assumptions C16_doc_fixed_is_fixed.
@@ -114,3 +155,11 @@ Check C16_numbersdirect_listing_exact.
 Print Assumptions C16_numbersdirect_listing_exact.
 Check C16_timestamps_listing_exact.
 Print Assumptions C16_timestamps_listing_exact.
+Check C16_symlink_points_to_current.
+Print Assumptions C16_symlink_points_to_current.
+Check C16_numbers_symlink_current.
+Print Assumptions C16_numbers_symlink_current.
+Check C16_numbersdirect_symlink_current.
+Print Assumptions C16_numbersdirect_symlink_current.
+Check C16_timestampsdirect_symlink_current.
+Print Assumptions C16_timestampsdirect_symlink_current.
